@@ -732,34 +732,38 @@ class SSHTransportBase(protocol.Protocol):
         """
         self.buf = self.buf + data
         if not self.gotVersion:
-            if len(self.buf) > 4096:
-                self.sendDisconnect(
-                    DISCONNECT_CONNECTION_LOST,
-                    b"Peer version string longer than 4KB. "
-                    b"Preventing a denial of service attack.",
-                )
-                return
-
-            if self.buf.find(b"\n", self.buf.find(b"SSH-")) == -1:
-                return
+            # Only complete lines are considered.  Lines which do not start
+            # with "SSH-" may precede the version line (RFC 4253, section
+            # 4.2) and are ignored.
+            start = 0
+            while True:
+                end = self.buf.find(b"\n", start)
+                if end == -1 or end > 4096:
+                    if len(self.buf) > 4096:
+                        self.sendDisconnect(
+                            DISCONNECT_CONNECTION_LOST,
+                            b"Peer version string longer than 4KB. "
+                            b"Preventing a denial of service attack.",
+                        )
+                    return
+                line = self.buf[start:end]
+                if line.startswith(b"SSH-"):
+                    break
+                start = end + 1
 
             # RFC 4253 section 4.2 ask for strict `\r\n` line ending.
             # Here we are a bit more relaxed and accept implementations ending
             # only in '\n'.
             # https://tools.ietf.org/html/rfc4253#section-4.2
-            lines = self.buf.split(b"\n")
-            for p in lines:
-                if p.startswith(b"SSH-"):
-                    self.gotVersion = True
-                    # Since the line was split on '\n' and most of the time
-                    # it uses '\r\n' we may get an extra '\r'.
-                    self.otherVersionString = p.rstrip(b"\r")
-                    remoteVersion = p.split(b"-")[1]
-                    if remoteVersion not in self.supportedVersions:
-                        self._unsupportedVersionReceived(remoteVersion)
-                        return
-                    i = lines.index(p)
-                    self.buf = b"\n".join(lines[i + 1 :])
+            self.gotVersion = True
+            # Since the line was split on '\n' and most of the time
+            # it uses '\r\n' we may get an extra '\r'.
+            self.otherVersionString = line.rstrip(b"\r")
+            remoteVersion = line.split(b"-")[1]
+            if remoteVersion not in self.supportedVersions:
+                self._unsupportedVersionReceived(remoteVersion)
+                return
+            self.buf = self.buf[end + 1 :]
         packet = self.getPacket()
         while packet:
             messageNum = ord(packet[0:1])
